@@ -120,6 +120,7 @@ Definition werr_eqb (a b : werr) : bool :=
   match a, b with
   | SessionClose u, SessionClose v => beq u v
   | TransportExc u, TransportExc v => beq u v
+  | CompareExc u, CompareExc v => beq u v
   | _, _ => false
   end.
 Definition is_nil {A} (l : list A) : bool := match l with [] => true | _ => false end.
@@ -203,6 +204,7 @@ Definition wstep (s : wstate) (l : label) : option wstate :=
                      end
             | Neg => Some (wfail s e (SessionClose data))
             | Raise => Some (wfail s e (TransportExc data))
+            | NoCount => Some (wfail s e (CompareExc data))
             end
           else None
       | _ => None
